@@ -9,6 +9,8 @@ from __future__ import annotations
 import collections
 from fractions import Fraction
 
+import itertools
+
 from engine import chooser, families as fam, lockstep, refs, vkit
 from engine.refs import NEEDS_TB
 from . import common
@@ -31,10 +33,18 @@ def build_cases(tier, seed):
         cs.append(("score", "x", c))
     for c in common.zero_ballot_cases():
         cs.append(("zero", "int", c))
+    # decimal weights whose float sums are inexact (1/10 + 1/5 vs 3/10): exact ties that float tallies would miss;
+    # single-round rules and TopTwo only (see rule_menu)
+    nine = fam.bullet_family(3) + fam.perm_family(3)
+    tenth = (Fraction(1, 10), Fraction(1, 5), Fraction(3, 10))
+    for combo in itertools.combinations(range(len(nine)), 3):
+        for ws in (tenth, (tenth[2], tenth[0], tenth[1])):
+            cs.append(("dec", "rat", (fam.cands(3), tuple((nine[k], w) for k, w in zip(combo, ws)))))
     _CASES = cs
     meta = {
         "family": "ranked: " + common.family_text(tier) + "; tied ballots: Prof(Weak(3),2,{1,2}) for the tie-tolerant rules;"
-        " score profiles over {0,1,2}/{0,1/2,1}; zero-ballot profiles with 1..3 declared candidates;"
+        " score profiles over {0,1,2}/{0,1/2,1}; zero-ballot profiles with 1..3 declared candidates; three-ballot profiles over Bullet(3)+Perm(3) with weights "
+        "(1/10,1/5,3/10) for the single-round rules;"
         " x every rule class x m x quota x simultaneous x transfer x tiebreak x all RNG paths",
         "assumptions": [
             "small scope: n<=3 candidates (n<=4 thorough), K<=2..3 distinct ballot types, weights from a handful of values",
@@ -87,6 +97,15 @@ def rule_menu(kind, tag, case, tier):
             yield rule, rule, kw, kw["m"], ("score", kw["m"])
         return
     ms = range(1, n + 1)
+    if kind == "dec":
+        for m in ms:
+            for tb in (None, "random"):
+                yield "Plurality", "Plurality", dict(m=m, tiebreak=tb), m, ("fpv", m, tb)
+                yield "Borda", "Borda", dict(m=m, tiebreak=tb), m, ("borda", m, tb)
+        for tb in (None, "random"):
+            yield "TopTwo", "TopTwo", dict(tiebreak=tb), 1, ("toptwo", tb)
+        yield "STV", "STV", dict(m=1, quota="droop", simultaneous=True, tiebreak=None, transfer="fractional"), 1, ("stv", 1, "droop", True, None, "fractional")
+        return
     if kind in ("rank", "zero"):
         for (rule, m, q, sim, tb) in common.stv_configs(n, tag):
             vrule, kw, tr = common.stv_ctor(rule, m, q, sim, tb)
